@@ -452,7 +452,7 @@ fn cmd_selftest(tier: &str) -> i32 {
     let root = verif_root();
     let _ = std::fs::create_dir_all(format!("{}/evidence", root));
     let _ = std::fs::write(
-        format!("{}/evidence/selftest.json", root),
+        format!("{}/selftest-report.json", root),
         serde_json::to_string_pretty(&json!({"tier": tier, "seed": base, "wall_s": t0.elapsed().as_secs_f64(), "results": results})).unwrap(),
     );
     if bad > 0 {
